@@ -1474,7 +1474,8 @@ def swap_if_else(source: str) -> str:
 @processing.fix
 def early_return(source: str) -> str:
     root = core.parse(source)
-    for funcdef in parsing.iter_funcdefs(root):
+    # The assignments become returns and the final return goes, all together or not at all
+    for transaction, funcdef in enumerate(parsing.iter_funcdefs(root)):
         if not core.match_template(funcdef.body[-2:], [ast.If, ast.Return(value=ast.Name)]):
             continue
 
@@ -1501,9 +1502,9 @@ def early_return(source: str) -> str:
             for node in recursive_last_nonif_nodes
         )):
             for node in recursive_last_nonif_nodes:
-                yield node, ast.Return(value=node.value, lineno=node.lineno)
+                yield node, ast.Return(value=node.value, lineno=node.lineno), transaction
 
-            yield ret_stmt, None
+            yield ret_stmt, None, transaction
 
 
 def _total_linenos(nodes: Iterable[ast.AST]) -> int:
